@@ -781,7 +781,7 @@ func c09Exec(env *c09Env, tok string) string {
 	rc := env.conns[conn-1]
 	env.n++
 	tag := fmt.Sprintf("t%d", env.n)
-	rc.c.SetReadDeadline(time.Now().Add(8 * time.Second)) // healthy replies take well under a millisecond
+	rc.c.SetReadDeadline(time.Now().Add(60 * time.Second)) // healthy replies take well under a millisecond; generous because an expiry counts as a crash
 	rc.send(tag + " " + text + "\r\n")
 	var items []string
 	for {
